@@ -1,0 +1,69 @@
+//go:build verif && (verif_all || verif_c15)
+// +build verif
+// +build verif_all verif_c15
+
+package gocql
+
+// Verification hooks for C15 (paged iteration): builds REAL Iter / nextIter / framer values for a
+// scripted chain of pages so that the real consumers (Scan, Scanner, MapScan, SliceMap) can be driven
+// without a server. Each nextIter is handed over in the state "its one fetch has completed" (as after
+// a finished asynchronous prefetch): `once` is consumed and `next` is set. Add-only.
+
+import (
+	"path/filepath"
+	"runtime"
+)
+
+// VerifC15SourceDir is the directory this package was compiled from (for the AST expectations).
+func VerifC15SourceDir() string {
+	_, f, _, _ := runtime.Caller(0)
+	return filepath.Dir(f)
+}
+
+// VerifC15Page is one scripted page: rows of one `int` column, or a failed fetch.
+type VerifC15Page struct {
+	Rows        []int32
+	Err         error
+	PrefetchPos int
+}
+
+func verifC15Iter(p VerifC15Page) *Iter {
+	if p.Err != nil {
+		return &Iter{err: p.Err}
+	}
+	f := newFramer(nil, 4)
+	for _, v := range p.Rows {
+		f.writeInt(4)
+		f.writeInt(v)
+	}
+	return &Iter{
+		meta: resultMetadata{
+			columns:        []ColumnInfo{{Keyspace: "ks", Table: "t", Name: "v", TypeInfo: NativeType{proto: 4, typ: TypeInt}}},
+			colCount:       1,
+			actualColCount: 1,
+		},
+		framer:  f,
+		numRows: len(p.Rows),
+	}
+}
+
+// VerifC15Chain links the pages: page i's Iter gets next = &nextIter{pos, next: page i+1} whose
+// sync.Once has already run.
+func VerifC15Chain(pages []VerifC15Page) *Iter {
+	var head, prev *Iter
+	for i, p := range pages {
+		it := verifC15Iter(p)
+		if i == 0 {
+			head = it
+		} else {
+			n := &nextIter{pos: pages[i-1].PrefetchPos}
+			n.once.Do(func() { n.next = it })
+			prev.next = n
+		}
+		if p.Err != nil {
+			break
+		}
+		prev = it
+	}
+	return head
+}
